@@ -89,34 +89,253 @@ theorem splitOnChar_append (sep : Char) (n b : List Char) (h : sep ∉ n) :
     simp only [List.cons_append, splitOnChar, h1, ih h.2]
     rfl
 
-/-! ### splitBody -/
+/-! ### bracketed number lists: the scanner and the segment splitter -/
 
-theorem splitBody_append (t r : List Char) (s : List Char) (ss : List (List Char))
-    (ht : ∀ c ∈ t, c ≠ ',' ∧ c ≠ ')') (hr : splitBody r = some (s :: ss)) :
-    splitBody (t ++ r) = some ((t ++ s) :: ss) := by
+theorem dropWhile_append_of_ne {α : Type} (p : α → Bool) (l r : List α) (h : l.dropWhile p ≠ []) :
+    (l ++ r).dropWhile p = l.dropWhile p ++ r := by
+  induction l with
+  | nil => exact absurd rfl h
+  | cons a t ih =>
+    cases ha : p a with
+    | true =>
+      simp only [List.cons_append, List.dropWhile, ha] at h ⊢
+      exact ih h
+    | false => simp [List.dropWhile, ha]
+
+theorem dropWhile_ne_nil_of_mem {α : Type} (p : α → Bool) (l : List α) (a : α) (ha : a ∈ l)
+    (hp : p a = false) : l.dropWhile p ≠ [] := by
+  induction l with
+  | nil => cases ha
+  | cons b t ih =>
+    cases hb : p b with
+    | false => simp [List.dropWhile, hb]
+    | true =>
+      simp only [List.dropWhile, hb]
+      rcases List.mem_cons.1 ha with rfl | h
+      · rw [hp] at hb; cases hb
+      · exact ih h
+
+theorem mem_of_closesList {u : List Char} (h : closesList u = true) : ']' ∈ u := by
+  unfold closesList at h
+  have hm : ']' ∈ u.dropWhile numListChar := by
+    cases hd : u.dropWhile numListChar with
+    | nil => rw [hd] at h; simp at h
+    | cons a t =>
+      rw [hd] at h
+      simp only [List.head?_cons, beq_iff_eq, Option.some.injEq] at h
+      subst h; exact List.mem_cons_self
+  exact (List.dropWhile_sublist numListChar).subset hm
+
+theorem closesList_append {u r : List Char} (h : u.dropWhile numListChar ≠ []) :
+    closesList (u ++ r) = closesList u := by
+  unfold closesList
+  rw [dropWhile_append_of_ne _ _ _ h, List.head?_append_of_ne_nil _ h]
+
+/-- no `[` of the text opens a number list that could run beyond the text: after every `[`
+    some character of the text is not a number-list character -/
+def Closed : List Char → Prop
+  | [] => True
+  | c :: t => (c = '[' → t.dropWhile numListChar ≠ []) ∧ Closed t
+
+theorem Closed_of_no_bracket {t : List Char} (h : '[' ∉ t) : Closed t := by
   induction t with
-  | nil => simpa using hr
-  | cons a u ih =>
-    obtain ⟨h1, h2⟩ := ht a List.mem_cons_self
-    have e1 : (a == ')') = false := by simpa using h2
-    have e2 : (a == ',') = false := by simpa using h1
-    simp only [List.cons_append, splitBody, e1, ih fun c hc => ht c (List.mem_cons_of_mem _ hc), e2]
+  | nil => trivial
+  | cons c u ih =>
+    simp only [List.mem_cons, not_or] at h
+    exact ⟨fun e => absurd e.symm h.1, ih h.2⟩
+
+theorem Closed_append_last (t : List Char) (q : Char) (hq : numListChar q = false) (hq' : q ≠ '[') :
+    Closed (t ++ [q]) := by
+  induction t with
+  | nil => exact ⟨fun e => absurd e hq', trivial⟩
+  | cons c u ih =>
+    refine ⟨fun _ => ?_, ih⟩
+    exact dropWhile_ne_nil_of_mem _ _ q (by simp) hq
+
+theorem scanTok_true (p : Char → Bool) (c : Char) (t : List Char) :
+    scanTok p true (c :: t) = (c :: (scanTok p (c != ']') t).1, (scanTok p (c != ']') t).2) := by
+  rw [scanTok]
+
+theorem scanTok_false (p : Char → Bool) (c : Char) (t : List Char) :
+    scanTok p false (c :: t) =
+      if (c == '[' && closesList t) = true then (c :: (scanTok p true t).1, (scanTok p true t).2)
+      else if p c = true then (c :: (scanTok p false t).1, (scanTok p false t).2)
+      else ([], c :: t) := by
+  rw [scanTok]
+
+/-- the scanner runs through a text whose characters all belong to the class and whose
+    brackets are closed inside it -/
+theorem scanTok_plain (p : Char → Bool) (r : List Char) :
+    ∀ (t : List Char), (∀ c ∈ t, p c = true) → Closed t → ∀ b : Bool, (b = true → ']' ∈ t) →
+      scanTok p b (t ++ r) = (t ++ (scanTok p false r).1, (scanTok p false r).2) := by
+  intro t
+  induction t with
+  | nil =>
+    intro _ _ b hb
+    cases b with
+    | true => exact absurd (hb rfl) (by simp)
+    | false => simp
+  | cons c u ih =>
+    intro hp hc b hb
+    have hpu : ∀ d ∈ u, p d = true := fun d hd => hp d (List.mem_cons_of_mem _ hd)
+    cases b with
+    | true =>
+      rw [List.cons_append, scanTok_true]
+      by_cases hcc : c = ']'
+      · subst hcc
+        rw [show ((']' : Char) != ']') = false by decide, ih hpu hc.2 false (by simp)]
+        try rfl
+      · have hne : (c != ']') = true := by simpa using hcc
+        have hmem : ']' ∈ u := by
+          rcases List.mem_cons.1 (hb rfl) with h | h
+          · exact absurd h.symm hcc
+          · exact h
+        rw [hne, ih hpu hc.2 true (fun _ => hmem)]
+        try rfl
+    | false =>
+      rw [List.cons_append, scanTok_false]
+      by_cases hg : (c == '[' && closesList (u ++ r)) = true
+      · rw [if_pos hg]
+        simp only [Bool.and_eq_true, beq_iff_eq] at hg
+        have hd := hc.1 hg.1
+        have hmem : ']' ∈ u := mem_of_closesList (by rw [← closesList_append hd]; exact hg.2)
+        rw [ih hpu hc.2 true (fun _ => hmem)]
+        try rfl
+      · rw [if_neg hg, if_pos (hp c List.mem_cons_self), ih hpu hc.2 false (by simp)]
+        try rfl
+
+theorem scanTok_inList (p : Char → Bool) (inner r : List Char) (h : ∀ c ∈ inner, c ≠ ']') :
+    scanTok p true (inner ++ ']' :: r) =
+      (inner ++ ']' :: (scanTok p false r).1, (scanTok p false r).2) := by
+  induction inner with
+  | nil => simp [scanTok_true]
+  | cons c u ih =>
+    have hne : (c != ']') = true := by simpa using h c List.mem_cons_self
+    rw [List.cons_append, scanTok_true, hne, ih fun d hd => h d (List.mem_cons_of_mem _ hd)]
+    try rfl
+
+theorem numListChar_ne_close {c : Char} (h : numListChar c = true) : c ≠ ']' := by
+  rintro rfl; revert h; decide
+
+theorem closesList_inner (inner r : List Char) (h : ∀ c ∈ inner, numListChar c = true) :
+    closesList (inner ++ ']' :: r) = true := by
+  unfold closesList
+  rw [dropWhile_all_append _ _ _ h]
+  simp [List.dropWhile, show numListChar ']' = false by decide]
+
+theorem scanTok_list (p : Char → Bool) (inner r : List Char)
+    (h : ∀ c ∈ inner, numListChar c = true) :
+    scanTok p false ('[' :: (inner ++ ']' :: r)) =
+      ('[' :: (inner ++ ']' :: (scanTok p false r).1), (scanTok p false r).2) := by
+  rw [scanTok_false, if_pos (by simp [closesList_inner inner r h]),
+    scanTok_inList p inner r fun c hc => numListChar_ne_close (h c hc)]
+
+theorem splitBody_true (c : Char) (cs : List Char) :
+    splitBody true (c :: cs) = consSeg c (splitBody (c != ']') cs) := by
+  rw [splitBody]
+
+theorem splitBody_false (c : Char) (cs : List Char) :
+    splitBody false (c :: cs) =
+      if (c == '[' && closesList cs) = true then consSeg c (splitBody true cs)
+      else if (c == ')') = true then some [[]]
+      else stepSeg c (splitBody false cs) := by
+  rw [splitBody]
+
+/-- a text passes through the splitter as (part of) one segment -/
+def SplitOK (t : List Char) : Prop :=
+  ∀ r s ss, splitBody false r = some (s :: ss) → splitBody false (t ++ r) = some ((t ++ s) :: ss)
+
+theorem splitBody_plain (r s : List Char) (ss : List (List Char))
+    (hr : splitBody false r = some (s :: ss)) :
+    ∀ (t : List Char), (∀ c ∈ t, c ≠ ',' ∧ c ≠ ')') → Closed t → ∀ b : Bool, (b = true → ']' ∈ t) →
+      splitBody b (t ++ r) = some ((t ++ s) :: ss) := by
+  intro t
+  induction t with
+  | nil =>
+    intro _ _ b hb
+    cases b with
+    | true => exact absurd (hb rfl) (by simp)
+    | false => simpa using hr
+  | cons c u ih =>
+    intro hp hc b hb
+    have hpu : ∀ d ∈ u, d ≠ ',' ∧ d ≠ ')' := fun d hd => hp d (List.mem_cons_of_mem _ hd)
+    cases b with
+    | true =>
+      rw [List.cons_append, splitBody_true]
+      by_cases hcc : c = ']'
+      · subst hcc
+        rw [show ((']' : Char) != ']') = false by decide, ih hpu hc.2 false (by simp)]
+        rfl
+      · have hne : (c != ']') = true := by simpa using hcc
+        have hmem : ']' ∈ u := by
+          rcases List.mem_cons.1 (hb rfl) with h | h
+          · exact absurd h.symm hcc
+          · exact h
+        rw [hne, ih hpu hc.2 true (fun _ => hmem)]
+        rfl
+    | false =>
+      rw [List.cons_append, splitBody_false]
+      by_cases hg : (c == '[' && closesList (u ++ r)) = true
+      · rw [if_pos hg]
+        simp only [Bool.and_eq_true, beq_iff_eq] at hg
+        have hd := hc.1 hg.1
+        have hmem : ']' ∈ u := mem_of_closesList (by rw [← closesList_append hd]; exact hg.2)
+        rw [ih hpu hc.2 true (fun _ => hmem)]
+        rfl
+      · obtain ⟨h1, h2⟩ := hp c List.mem_cons_self
+        have e1 : (c == ')') = false := by simpa using h2
+        have e2 : (c == ',') = false := by simpa using h1
+        rw [if_neg hg, e1, ih hpu hc.2 false (by simp)]
+        simp [stepSeg, e2]
+
+theorem SplitOK_plain {t : List Char} (h : ∀ c ∈ t, c ≠ ',' ∧ c ≠ ')') (hc : Closed t) : SplitOK t :=
+  fun r s ss hr => splitBody_plain r s ss hr t h hc false (by simp)
+
+theorem splitBody_inList (inner r s : List Char) (ss : List (List Char))
+    (h : ∀ c ∈ inner, c ≠ ']') (hr : splitBody false r = some (s :: ss)) :
+    splitBody true (inner ++ ']' :: r) = some ((inner ++ ']' :: s) :: ss) := by
+  induction inner with
+  | nil =>
+    simp only [List.nil_append, splitBody_true, show ((']' : Char) != ']') = false by decide, hr]
+    rfl
+  | cons c u ih =>
+    have hne : (c != ']') = true := by simpa using h c List.mem_cons_self
+    rw [List.cons_append, splitBody_true, hne, ih fun d hd => h d (List.mem_cons_of_mem _ hd)]
     rfl
 
-theorem splitBody_close (t rest : List Char) (ht : ∀ c ∈ t, c ≠ ',' ∧ c ≠ ')') :
-    splitBody (t ++ ')' :: rest) = some [t] := by
-  have := splitBody_append t (')' :: rest) [] [] ht (by simp [splitBody])
+theorem SplitOK_list (inner : List Char) (h : ∀ c ∈ inner, numListChar c = true) :
+    SplitOK ('[' :: (inner ++ [']'])) := by
+  intro r s ss hr
+  have e : ('[' :: (inner ++ [']'])) ++ r = '[' :: (inner ++ ']' :: r) := by simp
+  have e' : ('[' :: (inner ++ [']'])) ++ s = '[' :: (inner ++ ']' :: s) := by simp
+  rw [e, e', splitBody_false, if_pos (by simp [closesList_inner inner r h]),
+    splitBody_inList inner r s ss (fun c hc => numListChar_ne_close (h c hc)) hr]
+  rfl
+
+theorem SplitOK.append {a b : List Char} (ha : SplitOK a) (hb : SplitOK b) : SplitOK (a ++ b) := by
+  intro r s ss hr
+  rw [List.append_assoc, List.append_assoc]
+  exact ha _ _ _ (hb r s ss hr)
+
+theorem SplitOK_eq : SplitOK ['='] := by
+  intro r s ss hr
+  simp only [List.cons_append, List.nil_append, splitBody_false, hr]
+  rfl
+
+theorem splitBody_close (t rest : List Char) (ht : SplitOK t) :
+    splitBody false (t ++ ')' :: rest) = some [t] := by
+  have := ht (')' :: rest) [] [] (by rw [splitBody_false]; rfl)
   simpa using this
 
 theorem splitBody_comma (t r s : List Char) (ss : List (List Char))
-    (ht : ∀ c ∈ t, c ≠ ',' ∧ c ≠ ')') (hr : splitBody r = some (s :: ss)) :
-    splitBody (t ++ ',' :: r) = some (t :: s :: ss) := by
-  have := splitBody_append t (',' :: r) [] (s :: ss) ht (by simp [splitBody, hr])
+    (ht : SplitOK t) (hr : splitBody false r = some (s :: ss)) :
+    splitBody false (t ++ ',' :: r) = some (t :: s :: ss) := by
+  have := ht (',' :: r) [] (s :: ss) (by rw [splitBody_false, hr]; rfl)
   simpa using this
 
 theorem splitBody_join (ts : List (List Char)) (rest : List Char)
-    (h : ∀ t ∈ ts, ∀ c ∈ t, c ≠ ',' ∧ c ≠ ')') (hne : ts ≠ []) :
-    splitBody (joinComma ts ++ ')' :: rest) = some ts := by
+    (h : ∀ t ∈ ts, SplitOK t) (hne : ts ≠ []) :
+    splitBody false (joinComma ts ++ ')' :: rest) = some ts := by
   induction ts with
   | nil => exact absurd rfl hne
   | cons a u ih =>
@@ -148,44 +367,57 @@ theorem TokText.cons {a : Char} {b : List Char} (ha : keyChar a = true ∧ a ≠
 theorem TokText.noSep {t : List Char} (h : TokText t) : ∀ c ∈ t, c ≠ ',' ∧ c ≠ ')' := fun c hc =>
   ⟨(keyChar_iff.1 (h c hc).1).2.1, (keyChar_iff.1 (h c hc).1).2.2.1⟩
 
-theorem parseSeg_pos (t : List Char) (ht : TokText t) (hne : t ≠ []) :
+/-- the key scanner runs through the text (and continues behind it) -/
+def ScanOK (t : List Char) : Prop :=
+  ∀ r, scanTok keyChar false (t ++ r) =
+    (t ++ (scanTok keyChar false r).1, (scanTok keyChar false r).2)
+
+theorem ScanOK_plain {t : List Char} (h : TokText t) (hc : Closed t) : ScanOK t :=
+  fun r => scanTok_plain keyChar r t (fun c hc' => (h c hc').1) hc false (by simp)
+
+theorem ScanOK_list (inner : List Char) (h : ∀ c ∈ inner, numListChar c = true) :
+    ScanOK ('[' :: (inner ++ [']'])) := by
+  intro r
+  have e : ('[' :: (inner ++ [']'])) ++ r = '[' :: (inner ++ ']' :: r) := by simp
+  rw [e, scanTok_list keyChar inner r h]
+  simp
+
+theorem scanTok_stop (p : Char → Bool) (c : Char) (v : List Char) (h1 : c ≠ '[') (h2 : p c = false) :
+    scanTok p false (c :: v) = ([], c :: v) := by
+  have e : (c == '[' && closesList v) = false := by simp [h1]
+  rw [scanTok_false, e, h2]
+  simp
+
+theorem parseSeg_pos (t : List Char) (hs : ScanOK t) (hne : t ≠ [])
+    (hw : ∀ c, t.head? = some c → isWs c = false) :
     parseSeg t = some (.pos t) := by
   obtain ⟨a, u, rfl⟩ := List.exists_cons_of_ne_nil hne
-  have hk : ∀ c ∈ a :: u, keyChar c = true := fun c hc => (ht c hc).1
-  have hws : isWs a = false := keyChar_not_ws (hk a List.mem_cons_self)
+  have hws : isWs a = false := hw a rfl
+  have hsc : scanTok keyChar false (a :: u) = (a :: u, []) := by
+    have := hs []
+    simpa [scanTok] using this
   unfold parseSeg
-  simp only [dropWhile_head_false isWs a u hws]
-  have h1 : (a :: u).takeWhile keyChar = a :: u := by
-    have := takeWhile_all_append keyChar (a :: u) [] hk
-    simpa using this
-  have h2 : (a :: u).dropWhile keyChar = [] := by
-    have := dropWhile_all_append keyChar (a :: u) [] hk
-    simpa using this
-  rw [h1, h2]
+  simp only [dropWhile_head_false isWs a u hws, hsc]
   rfl
 
-theorem parseSeg_kw (k v : List Char) (hk : TokText k) (hne : k ≠ [])
+theorem parseSeg_kw (k v : List Char) (hk : ScanOK k) (hne : k ≠ [])
+    (hw : ∀ c, k.head? = some c → isWs c = false)
     (hv : v = [] ∨ ∃ a u, v = a :: u ∧ isWs a = false) :
     parseSeg (k ++ '=' :: v) = some (.kw k v) := by
   obtain ⟨a, u, rfl⟩ := List.exists_cons_of_ne_nil hne
-  have hkc : ∀ c ∈ a :: u, keyChar c = true := fun c hc => (hk c hc).1
-  have hws : isWs a = false := keyChar_not_ws (hkc a List.mem_cons_self)
-  have heq : keyChar '=' = false := by decide
-  unfold parseSeg
+  have hws : isWs a = false := hw a rfl
+  have hsc : scanTok keyChar false ((a :: u) ++ '=' :: v) = (a :: u, '=' :: v) := by
+    rw [hk ('=' :: v), scanTok_stop keyChar '=' v (by decide) (by decide)]
+    simp
   have h0 : ((a :: u) ++ '=' :: v).dropWhile isWs = (a :: u) ++ '=' :: v := by
     simp only [List.cons_append]; exact dropWhile_head_false isWs a _ hws
-  have h1 : ((a :: u) ++ '=' :: v).takeWhile keyChar = a :: u := by
-    rw [takeWhile_all_append keyChar (a :: u) _ hkc]
-    simp [List.takeWhile, heq]
-  have h2 : ((a :: u) ++ '=' :: v).dropWhile keyChar = '=' :: v := by
-    rw [dropWhile_all_append keyChar (a :: u) _ hkc]
-    simp [List.dropWhile, heq]
   have hweq : isWs '=' = false := by decide
   have hv' : v.dropWhile isWs = v := by
     rcases hv with rfl | ⟨b, w, rfl, hb⟩
     · rfl
     · exact dropWhile_head_false isWs b w hb
-  simp only [h0, h1, h2, dropWhile_head_false isWs '=' v hweq, hv']
+  unfold parseSeg
+  simp only [h0, hsc, dropWhile_head_false isWs '=' v hweq, hv']
   simp
 
 /-! ### literal text -/
@@ -205,18 +437,25 @@ theorem signText_tok (neg : Bool) : TokText (signText neg) := by
   · simp only [if_true, List.mem_singleton] at hc ⊢
     subst hc; decide
 
-theorem Lit.text_tok (l : Lit) (h : l.wf = true) : TokText l.text ∧ l.text ≠ [] := by
+/-- the literal is a bracketed list -/
+def Lit.isList : Lit → Bool
+  | .list _ => true
+  | _ => false
+
+theorem Lit.text_tok (l : Lit) (h : l.rd = true) (hl : l.isList = false) :
+    TokText l.text ∧ l.text ≠ [] := by
   cases l with
+  | list ns => cases hl
   | none => exact ⟨by unfold TokText Lit.text; decide, by decide⟩
   | bool b => cases b <;> exact ⟨by unfold TokText Lit.text; decide, by decide⟩
   | int neg ds =>
-    simp only [Lit.wf, Bool.and_eq_true] at h
-    obtain ⟨hne, hd⟩ := allDigits_iff.1 h.1
+    simp only [Lit.rd, NumLit.rd] at h
+    obtain ⟨hne, hd⟩ := allDigits_iff.1 h
     refine ⟨(signText_tok neg).append (digits_tok hd), ?_⟩
     simp [Lit.text, hne]
   | float neg ip fp ex =>
-    simp only [Lit.wf, Bool.and_eq_true] at h
-    obtain ⟨⟨⟨hip, hfp⟩, _⟩, hex⟩ := h
+    simp only [Lit.rd, NumLit.rd, Bool.and_eq_true] at h
+    obtain ⟨⟨hip, hfp⟩, hex⟩ := h
     obtain ⟨hine, hid⟩ := allDigits_iff.1 hip
     obtain ⟨_, hfd⟩ := allDigits_iff.1 hfp
     refine ⟨?_, by simp [Lit.text]⟩
@@ -232,7 +471,7 @@ theorem Lit.text_tok (l : Lit) (h : l.wf = true) : TokText l.text ∧ l.text ≠
       simp only at hex
       exact TokText.cons he ((signText_tok eneg).append (digits_tok (allDigits_iff.1 hex).2))
   | str dq cs =>
-    simp only [Lit.wf, List.all_eq_true] at h
+    simp only [Lit.rd, List.all_eq_true] at h
     refine ⟨?_, by simp [Lit.text]⟩
     have hq : keyChar (quoteChar dq) = true ∧ quoteChar dq ≠ '(' := by
       cases dq <;> decide
@@ -244,6 +483,189 @@ theorem Lit.text_tok (l : Lit) (h : l.wf = true) : TokText l.text ∧ l.text ≠
       exact ⟨this.1, this.2.1.1.1⟩
     simp only [Lit.text]
     exact TokText.cons hq (hcs.append (TokText.cons hq (fun c hc => by cases hc)))
+
+/-- characters of a number literal -/
+def numTextChar (c : Char) : Bool := isDig c || c == '-' || c == '.' || c == 'e'
+
+theorem numTextChar_facts {c : Char} (h : numTextChar c = true) :
+    keyChar c = true ∧ c ≠ '(' ∧ c ≠ '[' ∧ c ≠ ']' ∧ numListChar c = true ∧ isItemSep c = false := by
+  simp only [numTextChar, Bool.or_eq_true, beq_iff_eq] at h
+  rcases h with ((h | rfl) | rfl) | rfl
+  · have hk := isDig_keyChar h
+    refine ⟨hk, by rintro rfl; revert h; decide, by rintro rfl; revert h; decide,
+      by rintro rfl; revert h; decide, by simp [numListChar, h], ?_⟩
+    have := keyChar_iff.1 hk
+    simp [isItemSep, this.2.1, this.2.2.2]
+  · decide
+  · decide
+  · decide
+
+theorem mem_signText {neg : Bool} {c : Char} (h : c ∈ signText neg) : c = '-' := by
+  cases neg
+  · simp [signText] at h
+  · simpa [signText] using h
+
+theorem NumLit.text_chars (n : NumLit) (h : n.rd = true) : ∀ c ∈ n.text, numTextChar c = true := by
+  have hdig : ∀ {ds : List Char}, (∀ c ∈ ds, isDig c = true) → ∀ c ∈ ds, numTextChar c = true :=
+    fun hd c hc => by simp [numTextChar, hd c hc]
+  have hsign : ∀ (neg : Bool), ∀ c ∈ signText neg, numTextChar c = true := fun neg c hc => by
+    rw [mem_signText hc]; decide
+  cases n with
+  | int neg ds =>
+    simp only [NumLit.rd] at h
+    obtain ⟨_, hd⟩ := allDigits_iff.1 h
+    intro c hc
+    simp only [NumLit.text, List.mem_append] at hc
+    rcases hc with hc | hc
+    · exact hsign neg c hc
+    · exact hdig hd c hc
+  | float neg ip fp ex =>
+    simp only [NumLit.rd, Bool.and_eq_true] at h
+    obtain ⟨⟨hip, hfp⟩, hex⟩ := h
+    obtain ⟨_, hid⟩ := allDigits_iff.1 hip
+    obtain ⟨_, hfd⟩ := allDigits_iff.1 hfp
+    intro c hc
+    simp only [NumLit.text, List.mem_append, List.mem_cons] at hc
+    rcases hc with hc | hc | rfl | hc | hc
+    · exact hsign neg c hc
+    · exact hdig hid c hc
+    · decide
+    · exact hdig hfd c hc
+    · cases ex with
+      | none => cases hc
+      | some p =>
+        obtain ⟨eneg, ds⟩ := p
+        simp only at hex
+        simp only [expText, List.mem_cons, List.mem_append] at hc
+        rcases hc with rfl | hc | hc
+        · decide
+        · exact hsign eneg c hc
+        · exact hdig (allDigits_iff.1 hex).2 c hc
+
+theorem NumLit.text_ne (n : NumLit) (h : n.rd = true) : n.text ≠ [] := by
+  cases n with
+  | int neg ds =>
+    simp only [NumLit.rd] at h
+    simp [NumLit.text, (allDigits_iff.1 h).1]
+  | float neg ip fp ex => simp [NumLit.text]
+
+theorem NumLit.toLit_text (n : NumLit) : n.toLit.text = n.text := by cases n <;> rfl
+theorem NumLit.toLit_rd (n : NumLit) : n.toLit.rd = n.rd := by cases n <;> rfl
+theorem NumLit.toLit_val (n : NumLit) : n.toLit.val = n.num.toVal := by cases n <;> rfl
+
+/-- the text of a non-list literal closes every bracket it opens -/
+theorem Lit.text_closed (l : Lit) (h : l.rd = true) (hl : l.isList = false) : Closed l.text := by
+  cases l with
+  | list ns => cases hl
+  | none => exact Closed_of_no_bracket (by decide)
+  | bool b => cases b <;> exact Closed_of_no_bracket (by decide)
+  | int neg ds =>
+    refine Closed_of_no_bracket fun hm => ?_
+    have := NumLit.text_chars (.int neg ds) h _ hm
+    revert this; decide
+  | float neg ip fp ex =>
+    refine Closed_of_no_bracket fun hm => ?_
+    have := NumLit.text_chars (.float neg ip fp ex) h _ hm
+    revert this; decide
+  | str dq cs =>
+    have e : (Lit.str dq cs).text = (quoteChar dq :: cs) ++ [quoteChar dq] := by simp [Lit.text]
+    rw [e]
+    exact Closed_append_last _ _ (by cases dq <;> decide) (by cases dq <;> decide)
+
+/-- what the call-level lemmas need to know about the text of one literal / identifier -/
+structure TokOK (t : List Char) : Prop where
+  scan : ScanOK t
+  split : SplitOK t
+  ne : t ≠ []
+  first : ∀ c, t.head? = some c → isReSpace c = false
+  last : ∀ c, t.getLast? = some c → isReSpace c = false
+  noParen : '(' ∉ t
+  noTab : '\t' ∉ t
+
+theorem keyChar_not_reSpace {c : Char} (h : keyChar c = true) : isReSpace c = false :=
+  (keyChar_iff.1 h).2.2.2
+
+theorem TokOK_plain {t : List Char} (ht : TokText t) (hne : t ≠ []) (hc : Closed t) : TokOK t where
+  scan := ScanOK_plain ht hc
+  split := SplitOK_plain ht.noSep hc
+  ne := hne
+  first := fun c hc' => keyChar_not_reSpace (ht c (List.mem_of_mem_head? hc')).1
+  last := fun c hc' => keyChar_not_reSpace (ht c (List.mem_of_getLast? hc')).1
+  noParen := fun hm => (ht _ hm).2 rfl
+  noTab := fun hm => by
+    have := keyChar_not_ws (ht _ hm).1
+    simp [isWs] at this
+
+theorem TokOK_list (inner : List Char) (h : ∀ c ∈ inner, numTextChar c = true ∨ c = ',') :
+    TokOK ('[' :: (inner ++ [']'])) := by
+  have hl : ∀ c ∈ inner, numListChar c = true := fun c hc => by
+    rcases h c hc with h' | rfl
+    · exact (numTextChar_facts h').2.2.2.2.1
+    · decide
+  have hno : ∀ d : Char, d ≠ '[' → d ≠ ']' → d ≠ ',' → numTextChar d = false →
+      d ∉ '[' :: (inner ++ [']']) := by
+    intro d h1 h2 h3 h4 hm
+    simp only [List.mem_cons, List.mem_append, List.not_mem_nil, or_false] at hm
+    rcases hm with rfl | hm | rfl
+    · exact h1 rfl
+    · rcases h d hm with h' | rfl
+      · rw [h4] at h'; cases h'
+      · exact h3 rfl
+    · exact h2 rfl
+  exact {
+    scan := ScanOK_list inner hl
+    split := SplitOK_list inner hl
+    ne := by simp
+    first := fun c hc => by
+      simp only [List.head?_cons, Option.some.injEq] at hc; subst hc; decide
+    last := fun c hc => by
+      have : ('[' :: (inner ++ [']'])).getLast? = some ']' := by
+        rw [show '[' :: (inner ++ [']']) = ('[' :: inner) ++ [']'] by simp, List.getLast?_append]
+        simp
+      rw [this] at hc
+      simp only [Option.some.injEq] at hc; subst hc; decide
+    noParen := hno '(' (by decide) (by decide) (by decide) (by decide)
+    noTab := hno '\t' (by decide) (by decide) (by decide) (by decide) }
+
+theorem mem_joinComma {ts : List (List Char)} {c : Char} (h : c ∈ joinComma ts) :
+    c = ',' ∨ ∃ t ∈ ts, c ∈ t := by
+  induction ts with
+  | nil => cases h
+  | cons a u ih =>
+    cases u with
+    | nil => exact Or.inr ⟨a, List.mem_cons_self, by simpa [joinComma] using h⟩
+    | cons b v =>
+      simp only [joinComma, List.mem_append, List.mem_cons] at h
+      rcases h with h | rfl | h
+      · exact Or.inr ⟨a, List.mem_cons_self, h⟩
+      · exact Or.inl rfl
+      · rcases ih h with rfl | ⟨t, ht, hc⟩
+        · exact Or.inl rfl
+        · exact Or.inr ⟨t, List.mem_cons_of_mem _ ht, hc⟩
+
+/-- the characters between the brackets of a well-formed list literal -/
+theorem listInner_chars (ns : List NumLit) (h : ns.all NumLit.rd = true) :
+    ∀ c ∈ joinComma (ns.map NumLit.text), numTextChar c = true ∨ c = ',' := by
+  intro c hc
+  rcases mem_joinComma hc with rfl | ⟨t, ht, hct⟩
+  · exact Or.inr rfl
+  · obtain ⟨n, hn, rfl⟩ := List.mem_map.1 ht
+    exact Or.inl (NumLit.text_chars n (List.all_eq_true.1 h n hn) c hct)
+
+/-- every well-formed literal is a token the scanner, the splitter and `strip()` leave whole -/
+theorem Lit.text_ok (l : Lit) (h : l.rd = true) : TokOK l.text := by
+  cases hl : l.isList with
+  | false =>
+    obtain ⟨ht, hne⟩ := Lit.text_tok l h hl
+    exact TokOK_plain ht hne (Lit.text_closed l h hl)
+  | true =>
+    cases l with
+    | list ns => exact TokOK_list _ (listInner_chars ns h)
+    | none => cases hl
+    | bool b => cases hl
+    | int neg ds => cases hl
+    | float neg ip fp ex => cases hl
+    | str dq cs => cases hl
 
 /-! ### literal classification: `GetArg(text) = value` -/
 
@@ -315,18 +737,24 @@ theorem getArg_num {s : List Char} {n : Num} (h1 : s ≠ "True".toList) (h2 : s 
   unfold getArg
   rw [if_neg h1, if_neg h2, hn]
 
+theorem pyNum_int (neg : Bool) (ds : List Char) (h : allDigits ds = true) :
+    pyNum (signText neg ++ ds) = some (.int (signed neg (digitsVal ds))) := by
+  obtain ⟨hne, hd⟩ := allDigits_iff.1 h
+  obtain ⟨a, u, rfl⟩ := List.exists_cons_of_ne_nil hne
+  have htok : TokText (signText neg ++ a :: u) := (signText_tok neg).append (digits_tok hd)
+  have hi : pyIntOf (signText neg ++ a :: u) = some (signed neg (digitsVal (a :: u))) := by
+    unfold pyIntOf
+    simp only [stripWs_tok htok, splitSign_signText neg h, h, if_true]
+    cases neg <;> rfl
+  simp [pyNum, hi]
+
 theorem getArg_int (neg : Bool) (ds : List Char) (h : allDigits ds = true) :
     getArg (signText neg ++ ds) = .int (signed neg (digitsVal ds)) := by
   obtain ⟨hne, hd⟩ := allDigits_iff.1 h
   obtain ⟨a, u, rfl⟩ := List.exists_cons_of_ne_nil hne
   obtain ⟨b, hb, hb'⟩ := signText_head neg a u (hd a List.mem_cons_self)
   obtain ⟨k1, k2, _⟩ := not_keyword hb hb'
-  have htok : TokText (signText neg ++ a :: u) := (signText_tok neg).append (digits_tok hd)
-  have hi : pyIntOf (signText neg ++ a :: u) = some (signed neg (digitsVal (a :: u))) := by
-    unfold pyIntOf
-    simp only [stripWs_tok htok, splitSign_signText neg h, h, if_true]
-    cases neg <;> rfl
-  exact getArg_num (n := .int (signed neg (digitsVal (a :: u)))) k1 k2 (by simp [pyNum, hi])
+  exact getArg_num (n := .int (signed neg (digitsVal (a :: u)))) k1 k2 (pyNum_int neg _ h)
 
 theorem expPart_expText (ex : Option (Bool × List Char))
     (h : match ex with | none => True | some p => allDigits p.2 = true) :
@@ -357,32 +785,34 @@ theorem takeWhile_digits_then (ds r : List Char) (hd : ∀ c ∈ ds, isDig c = t
     have := hr a (by simp)
     simp [List.takeWhile, List.dropWhile, this]
 
-theorem getArg_float (neg : Bool) (ip fp : List Char) (ex : Option (Bool × List Char))
+theorem float_text_tok (neg : Bool) (ip fp : List Char) (ex : Option (Bool × List Char))
     (hip : allDigits ip = true) (hfp : allDigits fp = true)
     (hex : match ex with | none => True | some p => allDigits p.2 = true) :
-    getArg (Lit.float neg ip fp ex).text = (Lit.float neg ip fp ex).val := by
+    TokText (Lit.float neg ip fp ex).text := by
+  obtain ⟨_, hid⟩ := allDigits_iff.1 hip
+  obtain ⟨_, hfd⟩ := allDigits_iff.1 hfp
+  simp only [Lit.text]
+  have hdot : keyChar '.' = true ∧ '.' ≠ '(' := by decide
+  have he : keyChar 'e' = true ∧ 'e' ≠ '(' := by decide
+  refine (signText_tok neg).append ((digits_tok hid).append (TokText.cons hdot ?_))
+  refine (digits_tok hfd).append ?_
+  cases ex with
+  | none => intro c hc; cases hc
+  | some p =>
+    obtain ⟨eneg, ds⟩ := p
+    exact TokText.cons he ((signText_tok eneg).append (digits_tok (allDigits_iff.1 hex).2))
+
+theorem pyNum_float (neg : Bool) (ip fp : List Char) (ex : Option (Bool × List Char))
+    (hip : allDigits ip = true) (hfp : allDigits fp = true)
+    (hex : match ex with | none => True | some p => allDigits p.2 = true) :
+    pyNum (Lit.float neg ip fp ex).text = some (.float (floatVal neg ip fp ex)) := by
   obtain ⟨hine, hid⟩ := allDigits_iff.1 hip
   obtain ⟨hfne, hfd⟩ := allDigits_iff.1 hfp
+  have htok := float_text_tok neg ip fp ex hip hfp hex
   obtain ⟨a, u, rfl⟩ := List.exists_cons_of_ne_nil hine
-  have hwf : (Lit.float neg (a :: u) fp ex).wf = true ∨ True := Or.inr trivial
   have hdotd : isDig '.' = false := by decide
-  -- the text is a token text
-  have htok : TokText (Lit.float neg (a :: u) fp ex).text := by
-    simp only [Lit.text]
-    have hdot : keyChar '.' = true ∧ '.' ≠ '(' := by decide
-    have he : keyChar 'e' = true ∧ 'e' ≠ '(' := by decide
-    refine (signText_tok neg).append ((digits_tok hid).append (TokText.cons hdot ?_))
-    refine (digits_tok hfd).append ?_
-    cases ex with
-    | none => intro c hc; cases hc
-    | some p =>
-      obtain ⟨eneg, ds⟩ := p
-      exact TokText.cons he ((signText_tok eneg).append (digits_tok (allDigits_iff.1 hex).2))
   have htext : (Lit.float neg (a :: u) fp ex).text =
       signText neg ++ a :: (u ++ '.' :: (fp ++ expText ex)) := by simp [Lit.text]
-  obtain ⟨b, hb, hb'⟩ := signText_head neg a (u ++ '.' :: (fp ++ expText ex)) (hid a List.mem_cons_self)
-  rw [← htext] at hb
-  obtain ⟨k1, k2, _⟩ := not_keyword hb hb'
   have hsplit : splitSign (Lit.float neg (a :: u) fp ex).text =
       (neg, (a :: u) ++ '.' :: (fp ++ expText ex)) := by
     rw [htext]; exact splitSign_signText' neg a _ (hid a List.mem_cons_self)
@@ -393,21 +823,162 @@ theorem getArg_float (neg : Bool) (ip fp : List Char) (ex : Option (Bool × List
   obtain ⟨t1, d1⟩ := takeWhile_digits_then (a :: u) ('.' :: (fp ++ expText ex)) hid
     (by intro c hc; simp at hc; subst hc; exact hdotd)
   obtain ⟨t2, d2⟩ := takeWhile_digits_then fp (expText ex) hfd (expText_head_nondigit ex)
-  have hf : pyFloatOf (Lit.float neg (a :: u) fp ex).text =
-      some (match (Lit.float neg (a :: u) fp ex).val with | .float q => q | _ => 0) := by
+  have hf : pyFloatOf (Lit.float neg (a :: u) fp ex).text = some (floatVal neg (a :: u) fp ex) := by
     unfold pyFloatOf
     simp only [stripWs_tok htok, hsplit, t1, d1, fracPart, t2, d2, expPart_expText ex hex]
     have : (a :: u).isEmpty = false := rfl
-    simp only [this, Bool.false_and, Bool.false_eq_true, if_false, Lit.val]
+    simp only [this, Bool.false_and, Bool.false_eq_true, if_false, floatVal]
     cases ex <;> rfl
-  have hv : ∃ q, (Lit.float neg (a :: u) fp ex).val = .float q := ⟨_, rfl⟩
-  obtain ⟨q, hq⟩ := hv
-  rw [hq] at hf ⊢
-  exact getArg_num (n := .float q) k1 k2 (by simp [pyNum, hi, hf])
+  simp [pyNum, hi, hf]
+
+theorem getArg_float (neg : Bool) (ip fp : List Char) (ex : Option (Bool × List Char))
+    (hip : allDigits ip = true) (hfp : allDigits fp = true)
+    (hex : match ex with | none => True | some p => allDigits p.2 = true) :
+    getArg (Lit.float neg ip fp ex).text = (Lit.float neg ip fp ex).val := by
+  obtain ⟨hine, hid⟩ := allDigits_iff.1 hip
+  have hn := pyNum_float neg ip fp ex hip hfp hex
+  obtain ⟨a, u, rfl⟩ := List.exists_cons_of_ne_nil hine
+  have htext : (Lit.float neg (a :: u) fp ex).text =
+      signText neg ++ a :: (u ++ '.' :: (fp ++ expText ex)) := by simp [Lit.text]
+  obtain ⟨b, hb, hb'⟩ := signText_head neg a (u ++ '.' :: (fp ++ expText ex)) (hid a List.mem_cons_self)
+  rw [← htext] at hb
+  obtain ⟨k1, k2, _⟩ := not_keyword hb hb'
+  exact getArg_num (n := .float (floatVal neg (a :: u) fp ex)) k1 k2 hn
+
+/-- `Num` of the text of a well-formed number literal -/
+theorem pyNum_numLit (n : NumLit) (h : n.rd = true) : pyNum n.text = some n.num := by
+  cases n with
+  | int neg ds =>
+    simp only [NumLit.rd] at h
+    exact pyNum_int neg ds h
+  | float neg ip fp ex =>
+    simp only [NumLit.rd, Bool.and_eq_true] at h
+    obtain ⟨⟨hip, hfp⟩, hex⟩ := h
+    refine pyNum_float neg ip fp ex hip hfp ?_
+    cases ex with
+    | none => trivial
+    | some p => simpa using hex
+
+theorem splitOnP_none (p : Char → Bool) (l : List Char) (h : ∀ c ∈ l, p c = false) :
+    splitOnP p l = [l] := by
+  induction l with
+  | nil => rfl
+  | cons a t ih =>
+    simp only [splitOnP, h a List.mem_cons_self, ih fun c hc => h c (List.mem_cons_of_mem _ hc)]
+    rfl
+
+theorem splitOnP_append (p : Char → Bool) (n b : List Char) (sep : Char) (hs : p sep = true)
+    (h : ∀ c ∈ n, p c = false) : splitOnP p (n ++ sep :: b) = n :: splitOnP p b := by
+  induction n with
+  | nil => simp [splitOnP, hs]
+  | cons a t ih =>
+    simp only [List.cons_append, splitOnP, h a List.mem_cons_self,
+      ih fun c hc => h c (List.mem_cons_of_mem _ hc)]
+    rfl
+
+theorem splitOnP_joinComma (ts : List (List Char)) (hne : ts ≠ [])
+    (h : ∀ t ∈ ts, ∀ c ∈ t, isItemSep c = false) : splitOnP isItemSep (joinComma ts) = ts := by
+  induction ts with
+  | nil => exact absurd rfl hne
+  | cons a u ih =>
+    cases u with
+    | nil => simpa [joinComma] using splitOnP_none isItemSep a (h a List.mem_cons_self)
+    | cons b v =>
+      simp only [joinComma]
+      rw [splitOnP_append isItemSep a _ ',' (by decide) (h a List.mem_cons_self),
+        ih (by simp) fun t ht => h t (List.mem_cons_of_mem _ ht)]
+
+/-- `_ListItems` of a well-formed list literal: the texts of its elements -/
+theorem listItems_list (ns : List NumLit) (h : ns.all NumLit.rd = true) :
+    listItems (Lit.list ns).text = ns.map NumLit.text := by
+  have hwf : ∀ n ∈ ns, n.rd = true := fun n hn => List.all_eq_true.1 h n hn
+  have hinner : removeBrackets (Lit.list ns).text = joinComma (ns.map NumLit.text) := by
+    simp only [Lit.text, removeBrackets, List.filter_cons, List.filter_append]
+    have hkeep : (joinComma (ns.map NumLit.text)).filter (fun c => !(c == '[' || c == ']')) =
+        joinComma (ns.map NumLit.text) := by
+      rw [List.filter_eq_self]
+      intro c hc
+      rcases listInner_chars ns h c hc with h' | rfl
+      · obtain ⟨_, _, h3, h4, _, _⟩ := numTextChar_facts h'
+        simp [h3, h4]
+      · decide
+    rw [hkeep]
+    simp
+  unfold listItems
+  rw [hinner]
+  cases ns with
+  | nil => rfl
+  | cons n t =>
+    have hsep : ∀ x ∈ (n :: t).map NumLit.text, ∀ c ∈ x, isItemSep c = false := by
+      intro x hx c hc
+      obtain ⟨m, hm, rfl⟩ := List.mem_map.1 hx
+      exact (numTextChar_facts (NumLit.text_chars m (hwf m hm) c hc)).2.2.2.2.2
+    rw [splitOnP_joinComma _ (by simp) hsep, List.filter_eq_self]
+    intro x hx
+    obtain ⟨m, hm, rfl⟩ := List.mem_map.1 hx
+    have := NumLit.text_ne m (hwf m hm)
+    cases hmt : m.text with
+    | nil => exact absurd hmt this
+    | cons _ _ => rfl
+
+theorem getArg_list (ns : List NumLit) (h : ns.all NumLit.rd = true) :
+    getArg (Lit.list ns).text = .list (ns.map NumLit.num) := by
+  have hwf : ∀ n ∈ ns, n.rd = true := fun n hn => List.all_eq_true.1 h n hn
+  have htext : (Lit.list ns).text = '[' :: (joinComma (ns.map NumLit.text) ++ [']']) := rfl
+  obtain ⟨k1, k2, k3⟩ := not_keyword (s := (Lit.list ns).text) (a := '[') (by rw [htext]; rfl)
+    (by decide)
+  have hok := Lit.text_ok (.list ns) h
+  have hstrip : stripWs (Lit.list ns).text = (Lit.list ns).text := by
+    obtain ⟨a, u, hau⟩ := List.exists_cons_of_ne_nil hok.ne
+    unfold stripWs
+    have h1 : (Lit.list ns).text.dropWhile isReSpace = (Lit.list ns).text := by
+      rw [hau]; exact dropWhile_head_false _ _ _ (hok.first a (by rw [hau]; rfl))
+    rw [h1]
+    have hrne : (Lit.list ns).text.reverse ≠ [] := by simpa using hok.ne
+    obtain ⟨b, w, hbw⟩ := List.exists_cons_of_ne_nil hrne
+    have hb : (Lit.list ns).text.getLast? = some b := by
+      rw [← List.head?_reverse, hbw]; rfl
+    rw [hbw, dropWhile_head_false _ _ _ (hok.last b hb), ← hbw, List.reverse_reverse]
+  have hi : pyIntOf (Lit.list ns).text = none := by
+    unfold pyIntOf
+    rw [hstrip, htext, splitSign_other _ _ (by decide) (by decide)]
+    simp [allDigits, show isDig '[' = false by decide]
+  have hf : pyFloatOf (Lit.list ns).text = none := by
+    unfold pyFloatOf
+    rw [hstrip, htext, splitSign_other _ _ (by decide) (by decide)]
+    simp [List.takeWhile, List.dropWhile, fracPart, show isDig '[' = false by decide]
+  have hn : pyNum (Lit.list ns).text = none := by simp [pyNum, hi, hf]
+  have hbr : isBracketed (Lit.list ns).text = true := by
+    rw [htext]
+    have : ('[' :: (joinComma (ns.map NumLit.text) ++ [']'])).getLast? = some ']' := by
+      rw [show '[' :: (joinComma (ns.map NumLit.text) ++ [']']) =
+        ('[' :: joinComma (ns.map NumLit.text)) ++ [']'] by simp, List.getLast?_append]
+      simp
+    simp [isBracketed, this]
+  have hall : ((ns.map NumLit.text).all fun e => (pyNum e).isSome) = true := by
+    rw [List.all_eq_true]
+    intro x hx
+    obtain ⟨m, hm, rfl⟩ := List.mem_map.1 hx
+    rw [pyNum_numLit m (hwf m hm)]; rfl
+  have hl : isListOfNums (Lit.list ns).text = true := by
+    unfold isListOfNums
+    simp only [listItems_list ns h, hbr, Bool.or_true, Bool.true_and, hall]
+  have hvals : listOfNums (Lit.list ns).text = ns.map NumLit.num := by
+    unfold listOfNums
+    rw [listItems_list ns h]
+    clear hall hl hbr hn hf hi hstrip hok k1 k2 k3 htext h
+    induction ns with
+    | nil => rfl
+    | cons n t ih =>
+      simp only [List.map_cons, List.filterMap_cons, pyNum_numLit n (hwf n List.mem_cons_self)]
+      rw [ih fun m hm => hwf m (List.mem_cons_of_mem _ hm)]
+  unfold getArg
+  rw [if_neg k1, if_neg k2, hn]
+  simp only [if_neg k3, hl, if_true, hvals]
 
 theorem getArg_str (dq : Bool) (cs : List Char) (h : cs.all strChar = true) :
     getArg (Lit.str dq cs).text = .str (String.ofList cs) := by
-  have htok := (Lit.text_tok (.str dq cs) (by simpa [Lit.wf] using h)).1
+  have htok := (Lit.text_tok (.str dq cs) (by simpa [Lit.rd] using h) rfl).1
   have hq1 : isDig (quoteChar dq) = false := by cases dq <;> decide
   have hq2 : quoteChar dq ≠ '-' ∧ quoteChar dq ≠ '+' ∧ quoteChar dq ≠ '.' := by cases dq <;> decide
   have hq3 : quoteChar dq ≠ 'T' ∧ quoteChar dq ≠ 'F' ∧ quoteChar dq ≠ 'N' := by cases dq <;> decide
@@ -430,13 +1001,27 @@ theorem getArg_str (dq : Bool) (cs : List Char) (h : cs.all strChar = true) :
     simp only [t1, d1, fr]
     rfl
   have hl : isListOfNums (Lit.str dq cs).text = false := by
-    unfold isListOfNums
-    have hsp : ' ' ∉ removeBrackets (Lit.str dq cs).text := by
-      intro hm
+    unfold isListOfNums listItems
+    have hsp : ∀ c ∈ removeBrackets (Lit.str dq cs).text, isItemSep c = false := by
+      intro c hm
       have hm' := (List.mem_filter.1 hm).1
-      exact keyChar_ne_space (htok _ hm').1 rfl
-    rw [splitOnChar_not_mem _ _ hsp]
-    rfl
+      have := keyChar_iff.1 (htok _ hm').1
+      simp [isItemSep, this.2.1, this.2.2.2]
+    rw [splitOnP_none _ _ hsp]
+    have hb : isBracketed (Lit.str dq cs).text = false := by
+      rw [htext]; cases dq <;> simp [isBracketed, quoteChar]
+    rw [hb]
+    cases h1 : ([removeBrackets (Lit.str dq cs).text].filter fun e => !e.isEmpty) with
+    | nil => rfl
+    | cons x xs =>
+      have hlen : (x :: xs).length ≤ 1 := by
+        rw [← h1]; exact (List.length_filter_le _ _)
+      have : xs = [] := by
+        cases xs with
+        | nil => rfl
+        | cons _ _ => simp at hlen
+      subst this
+      simp
   have hd : ((Lit.str dq cs).text.drop 1).dropLast = cs := by
     rw [htext]; simp
   have hn : pyNum (Lit.str dq cs).text = none := by simp [pyNum, hi, hf]
@@ -446,23 +1031,26 @@ theorem getArg_str (dq : Bool) (cs : List Char) (h : cs.all strChar = true) :
   rfl
 
 /-- `GetArg` reads every well-formed literal of the grammar as Python does -/
-theorem getArg_lit (l : Lit) (h : l.wf = true) : getArg l.text = l.val := by
+theorem getArg_lit (l : Lit) (h : l.rd = true) : getArg l.text = l.val := by
   cases l with
   | none => decide
   | bool b => cases b <;> decide
   | int neg ds =>
-    simp only [Lit.wf, Bool.and_eq_true] at h
-    exact getArg_int neg ds h.1
+    simp only [Lit.rd, NumLit.rd] at h
+    exact getArg_int neg ds h
   | float neg ip fp ex =>
-    simp only [Lit.wf, Bool.and_eq_true] at h
-    obtain ⟨⟨⟨hip, hfp⟩, _⟩, hex⟩ := h
+    simp only [Lit.rd, NumLit.rd, Bool.and_eq_true] at h
+    obtain ⟨⟨hip, hfp⟩, hex⟩ := h
     refine getArg_float neg ip fp ex hip hfp ?_
     cases ex with
     | none => trivial
     | some p => simpa using hex
   | str dq cs =>
-    simp only [Lit.wf] at h
+    simp only [Lit.rd] at h
     exact getArg_str dq cs h
+  | list ns =>
+    simp only [Lit.rd] at h
+    exact getArg_list ns h
 
 /-! ### the whole call -/
 
@@ -500,43 +1088,73 @@ def toItem : Arg → Item
   | .pos l => .pos l.text
   | .kw k l => .kw k.toList l.text
 
-/-- the text of a well-formed argument contains none of `,` `)` `(` and is not blank -/
-theorem Arg.text_clean (a : Arg) (h : a.wf = true) :
-    (∀ c ∈ a.text, c ≠ ',' ∧ c ≠ ')' ∧ c ≠ '(') ∧ ∃ b u, a.text = b :: u ∧ isWs b = false := by
+theorem isIdent_ok {k : String} (h : isIdent k = true) : TokOK k.toList := by
+  obtain ⟨ht, hne⟩ := isIdent_tok h
+  refine TokOK_plain ht hne (Closed_of_no_bracket fun hm => ?_)
+  unfold isIdent at h
+  simp only [Bool.and_eq_true] at h
+  cases heq : k.toList with
+  | nil => rw [heq] at hm; cases hm
+  | cons c cs =>
+    rw [heq] at h hm
+    simp only [isIdentText, Bool.and_eq_true, List.all_eq_true] at h
+    rcases List.mem_cons.1 hm with rfl | hm'
+    · have := h.2.1.2; revert this; decide
+    · have := h.2.2 _ hm'; revert this; decide
+
+theorem stripWs_ok {t : List Char} (hok : TokOK t) : stripWs t = t := by
+  obtain ⟨a, u, hau⟩ := List.exists_cons_of_ne_nil hok.ne
+  unfold stripWs
+  have h1 : t.dropWhile isReSpace = t := by
+    rw [hau]; exact dropWhile_head_false _ _ _ (hok.first a (by rw [hau]; rfl))
+  rw [h1]
+  have hrne : t.reverse ≠ [] := by simpa using hok.ne
+  obtain ⟨b, w, hbw⟩ := List.exists_cons_of_ne_nil hrne
+  have hb : t.getLast? = some b := by
+    rw [← List.head?_reverse, hbw]; rfl
+  rw [hbw, dropWhile_head_false _ _ _ (hok.last b hb), ← hbw, List.reverse_reverse]
+
+theorem TokOK.headWs {t : List Char} (hok : TokOK t) : ∀ c, t.head? = some c → isWs c = false :=
+  fun c hc => isWs_of_not_reSpace (hok.first c hc)
+
+/-- the text of a well-formed argument is one segment for the splitter, contains neither `(`
+    nor a tab and does not start with whitespace -/
+theorem Arg.text_ok (a : Arg) (h : a.rd = true) :
+    SplitOK a.text ∧ '(' ∉ a.text ∧ '\t' ∉ a.text ∧ ∃ b u, a.text = b :: u ∧ isWs b = false := by
   cases a with
   | pos l =>
-    obtain ⟨ht, hne⟩ := Lit.text_tok l h
-    obtain ⟨b, u, hbu⟩ := List.exists_cons_of_ne_nil hne
-    refine ⟨fun c hc => ⟨(ht.noSep c hc).1, (ht.noSep c hc).2, (ht c hc).2⟩, b, u, hbu, ?_⟩
-    exact keyChar_not_ws (ht b (by rw [hbu]; exact List.mem_cons_self)).1
+    have hok := Lit.text_ok l h
+    obtain ⟨b, u, hbu⟩ := List.exists_cons_of_ne_nil hok.ne
+    exact ⟨hok.split, hok.noParen, hok.noTab, b, u, hbu, hok.headWs b (by rw [hbu]; rfl)⟩
   | kw k l =>
-    simp only [Arg.wf, Bool.and_eq_true] at h
-    obtain ⟨hk, hkne⟩ := isIdent_tok h.1
-    obtain ⟨ht, _⟩ := Lit.text_tok l h.2
-    obtain ⟨b, u, hbu⟩ := List.exists_cons_of_ne_nil hkne
-    refine ⟨?_, b, u ++ '=' :: l.text, by simp [Arg.text, hbu], ?_⟩
-    · intro c hc
-      simp only [Arg.text, List.mem_append, List.mem_cons] at hc
-      rcases hc with hc | rfl | hc
-      · exact ⟨(hk.noSep c hc).1, (hk.noSep c hc).2, (hk c hc).2⟩
-      · decide
-      · exact ⟨(ht.noSep c hc).1, (ht.noSep c hc).2, (ht c hc).2⟩
-    · exact keyChar_not_ws (hk b (by rw [hbu]; exact List.mem_cons_self)).1
+    simp only [Arg.rd, Bool.and_eq_true] at h
+    have hk := isIdent_ok h.1
+    have hl := Lit.text_ok l h.2
+    obtain ⟨b, u, hbu⟩ := List.exists_cons_of_ne_nil hk.ne
+    have e : (Arg.kw k l).text = k.toList ++ (['='] ++ l.text) := by simp [Arg.text]
+    refine ⟨?_, ?_, ?_, b, u ++ '=' :: l.text, by simp [Arg.text, hbu], hk.headWs b (by rw [hbu]; rfl)⟩
+    · rw [e]; exact hk.split.append (SplitOK_eq.append hl.split)
+    · rw [e]
+      simp only [List.mem_append, List.mem_singleton, not_or]
+      exact ⟨hk.noParen, by decide, hl.noParen⟩
+    · rw [e]
+      simp only [List.mem_append, List.mem_singleton, not_or]
+      exact ⟨hk.noTab, by decide, hl.noTab⟩
 
-theorem parseSeg_arg (a : Arg) (h : a.wf = true) : parseSeg a.text = some (toItem a) := by
+theorem parseSeg_arg (a : Arg) (h : a.rd = true) : parseSeg a.text = some (toItem a) := by
   cases a with
   | pos l =>
-    obtain ⟨ht, hne⟩ := Lit.text_tok l h
-    exact parseSeg_pos _ ht hne
+    have hok := Lit.text_ok l h
+    exact parseSeg_pos _ hok.scan hok.ne hok.headWs
   | kw k l =>
-    simp only [Arg.wf, Bool.and_eq_true] at h
-    obtain ⟨hk, hkne⟩ := isIdent_tok h.1
-    obtain ⟨ht, hne⟩ := Lit.text_tok l h.2
-    obtain ⟨b, u, hbu⟩ := List.exists_cons_of_ne_nil hne
-    refine parseSeg_kw _ _ hk hkne (Or.inr ⟨b, u, hbu, ?_⟩)
-    exact keyChar_not_ws (ht b (by rw [hbu]; exact List.mem_cons_self)).1
+    simp only [Arg.rd, Bool.and_eq_true] at h
+    have hk := isIdent_ok h.1
+    have hl := Lit.text_ok l h.2
+    obtain ⟨b, u, hbu⟩ := List.exists_cons_of_ne_nil hl.ne
+    exact parseSeg_kw _ _ hk.scan hk.ne hk.headWs
+      (Or.inr ⟨b, u, hbu, hl.headWs b (by rw [hbu]; rfl)⟩)
 
-theorem mapOpt_parseSeg (as : List Arg) (h : ∀ a ∈ as, a.wf = true) :
+theorem mapOpt_parseSeg (as : List Arg) (h : ∀ a ∈ as, a.rd = true) :
     mapOpt parseSeg (as.map Arg.text) = some (as.map toItem) := by
   induction as with
   | nil => rfl
@@ -544,24 +1162,23 @@ theorem mapOpt_parseSeg (as : List Arg) (h : ∀ a ∈ as, a.wf = true) :
     simp only [List.map_cons, mapOpt, parseSeg_arg a (h a List.mem_cons_self),
       ih fun b hb => h b (List.mem_cons_of_mem _ hb)]
 
-theorem parseItems_render (as : List Arg) (h : ∀ a ∈ as, a.wf = true) (rest : List Char) :
+theorem parseItems_render (as : List Arg) (h : ∀ a ∈ as, a.rd = true) (rest : List Char) :
     parseItems (joinComma (as.map Arg.text) ++ ')' :: rest) = .ok (as.map toItem) := by
   cases as with
-  | nil => simp [parseItems, joinComma, splitBody]
+  | nil => simp [parseItems, joinComma, splitBody_false]
   | cons a t =>
     have hsb := splitBody_join ((a :: t).map Arg.text) rest
-      (fun s hs c hc => by
+      (fun s hs => by
         obtain ⟨b, hb, rfl⟩ := List.mem_map.1 hs
-        have := (Arg.text_clean b (h b hb)).1 c hc
-        exact ⟨this.1, this.2.1⟩) (by simp)
+        exact (Arg.text_ok b (h b hb)).1) (by simp)
     unfold parseItems
     rw [hsb]
-    obtain ⟨b, u, hbu, hws⟩ := (Arg.text_clean a (h a List.mem_cons_self)).2
+    obtain ⟨b, u, hbu, hws⟩ := (Arg.text_ok a (h a List.mem_cons_self)).2.2.2
     have hnotws : (((a :: t).map Arg.text).all fun s => s.all isWs) = false := by
       simp [hbu, hws]
     simp only [hnotws, Bool.and_false, Bool.false_eq_true, if_false, mapOpt_parseSeg (a :: t) h]
 
-theorem itemArgs_render (as : List Arg) (h : ∀ a ∈ as, a.wf = true) :
+theorem itemArgs_render (as : List Arg) (h : ∀ a ∈ as, a.rd = true) :
     itemArgs (as.map toItem) = argVals as := by
   induction as with
   | nil => rfl
@@ -573,7 +1190,7 @@ theorem itemArgs_render (as : List Arg) (h : ∀ a ∈ as, a.wf = true) :
       rw [getArg_lit l (h _ List.mem_cons_self)]
     | kw k l => simpa only [List.map_cons, toItem, itemArgs, argVals] using iht
 
-theorem itemKwargs_render (as : List Arg) (h : ∀ a ∈ as, a.wf = true) (d : Env)
+theorem itemKwargs_render (as : List Arg) (h : ∀ a ∈ as, a.rd = true) (d : Env)
     (hn : (d.keys ++ argKeys as).Nodup) :
     itemKwargs d (as.map toItem) = d ++ argKwargs as := by
   induction as generalizing d with
@@ -585,12 +1202,12 @@ theorem itemKwargs_render (as : List Arg) (h : ∀ a ∈ as, a.wf = true) (d : E
       simp only [List.map_cons, toItem, itemKwargs, argKwargs]
       exact ih hwt d (by simpa [argKeys, argKwargs] using hn)
     | kw k l =>
-      have hl : l.wf = true := by
+      have hl : l.rd = true := by
         have := h _ List.mem_cons_self
-        simp only [Arg.wf, Bool.and_eq_true] at this
+        simp only [Arg.rd, Bool.and_eq_true] at this
         exact this.2
       simp only [List.map_cons, toItem, itemKwargs, argKwargs, String.ofList_toList,
-        getArg_lit l hl]
+        stripWs_ok (Lit.text_ok l hl), getArg_lit l hl]
       have hk : k ∉ d.keys := by
         intro hm
         simp only [argKeys, argKwargs, List.map_cons] at hn
@@ -603,6 +1220,45 @@ theorem itemKwargs_render (as : List Arg) (h : ∀ a ∈ as, a.wf = true) (d : E
       · simp
       · simp only [argKeys, argKwargs, List.map_cons, Env.keys, List.map_append] at hn ⊢
         simpa [List.append_assoc] using hn
+
+theorem itemKeys_render (as : List Arg) :
+    itemKeys (as.map toItem) = (argKeys as).map String.toList := by
+  induction as with
+  | nil => rfl
+  | cons a t ih =>
+    cases a with
+    | pos l => simpa only [List.map_cons, toItem, itemKeys, argKeys, argKwargs] using ih
+    | kw k l =>
+      simp only [List.map_cons, toItem, itemKeys, argKeys, argKwargs] at ih ⊢
+      rw [ih]
+
+theorem hasDup_iff (l : List (List Char)) : hasDup l = false ↔ l.Nodup := by
+  induction l with
+  | nil => simp [hasDup]
+  | cons a t ih =>
+    simp only [hasDup, Bool.or_eq_false_iff, List.nodup_cons, ih]
+    constructor
+    · rintro ⟨h1, h2⟩
+      exact ⟨by simpa using h1, h2⟩
+    · rintro ⟨h1, h2⟩
+      exact ⟨by simpa using h1, h2⟩
+
+/-- a keyword is repeated in the rendered call exactly when it is repeated in the argument list -/
+theorem hasDup_render (as : List Arg) :
+    hasDup (itemKeys (as.map toItem)) = !decide (argKeys as).Nodup := by
+  rw [itemKeys_render]
+  have hinj : Function.Injective String.toList := fun a b hab => by
+    have := congrArg String.ofList hab
+    simpa using this
+  by_cases hn : (argKeys as).Nodup
+  · have : ((argKeys as).map String.toList).Nodup := (List.nodup_map_iff hinj).2 hn
+    simp [hn, (hasDup_iff _).2 this]
+  · have : ¬ ((argKeys as).map String.toList).Nodup := fun h' => hn ((List.nodup_map_iff hinj).1 h')
+    have h2 : hasDup ((argKeys as).map String.toList) = true := by
+      cases hd : hasDup ((argKeys as).map String.toList) with
+      | true => rfl
+      | false => exact absurd ((hasDup_iff _).1 hd) this
+    simp [hn, h2]
 
 theorem badOrder_render (as : List Arg) : badOrder (as.map toItem) = argBadOrder as := by
   induction as with
@@ -624,27 +1280,11 @@ theorem argBadOrder_eq (as : List Arg) : argBadOrder as = argPosAfterKw as := by
     | cons b u =>
       simp only [argBadOrder] at ih ⊢
       rw [ih]
-      cases a <;> cases b <;> simp [argPosAfterKw]
-
-theorem mem_joinComma {ts : List (List Char)} {c : Char} (h : c ∈ joinComma ts) :
-    c = ',' ∨ ∃ t ∈ ts, c ∈ t := by
-  induction ts with
-  | nil => cases h
-  | cons a u ih =>
-    cases u with
-    | nil => exact Or.inr ⟨a, List.mem_cons_self, by simpa [joinComma] using h⟩
-    | cons b v =>
-      simp only [joinComma, List.mem_append, List.mem_cons] at h
-      rcases h with h | rfl | h
-      · exact Or.inr ⟨a, List.mem_cons_self, h⟩
-      · exact Or.inl rfl
-      · rcases ih h with rfl | ⟨t, ht, hc⟩
-        · exact Or.inl rfl
-        · exact Or.inr ⟨t, List.mem_cons_of_mem _ ht, hc⟩
+      cases a <;> cases b <;> simp [argPosAfterKw, Arg.isPos]
 
 /-- splitting the rendered call at "(" gives the name and the argument text -/
 theorem split_render (name : String) (as : List Arg) (hname : isIdent name = true)
-    (h : ∀ a ∈ as, a.wf = true) :
+    (h : ∀ a ∈ as, a.rd = true) :
     splitOnChar '(' (render name as) = [name.toList, joinComma (as.map Arg.text) ++ [')']] := by
   unfold render
   have h1 : '(' ∉ name.toList := fun hm => ((isIdent_tok hname).1 _ hm).2 rfl
@@ -654,7 +1294,7 @@ theorem split_render (name : String) (as : List Arg) (hname : isIdent name = tru
     · rcases mem_joinComma hm with he | ⟨t, ht, hc⟩
       · revert he; decide
       · obtain ⟨a, ha, rfl⟩ := List.mem_map.1 ht
-        exact ((Arg.text_clean a (h a ha)).1 _ hc).2.2 rfl
+        exact (Arg.text_ok a (h a ha)).2.1 hc
     · simp at hm
   rw [splitOnChar_append _ _ _ h1, splitOnChar_not_mem _ _ h2]
 
@@ -668,44 +1308,56 @@ theorem expandTabs_noTab (t : List Char) (h : ∀ c ∈ t, c ≠ '\t') (col : Na
     simp only [expandTabsFrom, ha, Bool.false_eq_true, if_false]
     split <;> rw [iu]
 
-theorem tok_ne_tab {c : Char} (h : keyChar c = true) : c ≠ '\t' := by
-  rintro rfl
-  have := keyChar_not_ws h
-  simp [isWs] at this
-
-theorem Arg.text_noTab (a : Arg) (h : a.wf = true) : ∀ c ∈ a.text, c ≠ '\t' := by
-  cases a with
-  | pos l => exact fun c hc => tok_ne_tab ((Lit.text_tok l h).1 c hc).1
-  | kw k l =>
-    simp only [Arg.wf, Bool.and_eq_true] at h
-    intro c hc
-    simp only [Arg.text, List.mem_append, List.mem_cons] at hc
-    rcases hc with hc | rfl | hc
-    · exact tok_ne_tab ((isIdent_tok h.1).1 c hc).1
-    · decide
-    · exact tok_ne_tab ((Lit.text_tok l h.2).1 c hc).1
-
-theorem render_body_noTab (as : List Arg) (h : ∀ a ∈ as, a.wf = true) :
+theorem render_body_noTab (as : List Arg) (h : ∀ a ∈ as, a.rd = true) :
     ∀ c ∈ joinComma (as.map Arg.text) ++ [')'], c ≠ '\t' := by
   intro c hc
   rcases List.mem_append.1 hc with hc | hc
   · rcases mem_joinComma hc with rfl | ⟨t, ht, hct⟩
     · decide
     · obtain ⟨a, ha, rfl⟩ := List.mem_map.1 ht
-      exact Arg.text_noTab a (h a ha) c hct
+      rintro rfl
+      exact (Arg.text_ok a (h a ha)).2.2.1 hct
   · simp only [List.mem_singleton] at hc; subst hc; decide
 
-/-- the safe_eval reading of a rendered call, before the order / repetition verdict -/
+/-- the safe_eval reading of a rendered call: the two SyntaxError verdicts, otherwise the
+    arguments -/
 theorem parseCall_render (name : String) (as : List Arg) (hname : isIdent name = true)
-    (h : ∀ a ∈ as, a.wf = true) :
+    (h : ∀ a ∈ as, a.rd = true) :
     parseCall (render name as) =
       if argPosAfterKw as then .error .syntaxError
-      else .ok ⟨name, argVals as, itemKwargs [] (as.map toItem), true⟩ := by
+      else if (argKeys as).Nodup then
+        .ok ⟨name, argVals as, itemKwargs [] (as.map toItem), true⟩
+      else .error .syntaxError := by
   unfold parseCall
   rw [split_render name as hname h]
   simp only [getParams, expandTabs_noTab _ (render_body_noTab as h), parseItems_render as h [],
-    badOrder_render, argBadOrder_eq,
+    badOrder_render, argBadOrder_eq, hasDup_render,
     itemArgs_render as h, String.ofList_toList]
-  cases argPosAfterKw as <;> rfl
+  cases argPosAfterKw as
+  · by_cases hn : (argKeys as).Nodup <;> simp [hn]
+  · rfl
+
+/-! ### well-formed (Python-valid) implies readable -/
+
+theorem NumLit.rd_of_wf (n : NumLit) (h : n.wf = true) : n.rd = true := by
+  cases n <;> simp only [NumLit.wf, Bool.and_eq_true] at h <;> exact h.1
+
+theorem Lit.rd_of_wf (l : Lit) (h : l.wf = true) : l.rd = true := by
+  cases l with
+  | none => exact h
+  | bool b => exact h
+  | str dq cs => exact h
+  | int neg ds => exact NumLit.rd_of_wf (.int neg ds) h
+  | float neg ip fp ex => exact NumLit.rd_of_wf (.float neg ip fp ex) h
+  | list ns =>
+    simp only [Lit.wf, Lit.rd, List.all_eq_true] at h ⊢
+    exact fun n hn => NumLit.rd_of_wf n (h n hn)
+
+theorem Arg.rd_of_wf (a : Arg) (h : a.wf = true) : a.rd = true := by
+  cases a with
+  | pos l => exact Lit.rd_of_wf l h
+  | kw k l =>
+    simp only [Arg.wf, Arg.rd, Bool.and_eq_true] at h ⊢
+    exact ⟨h.1, Lit.rd_of_wf l h.2⟩
 
 end QKV.Py
